@@ -304,6 +304,16 @@ def _write_violation(prop, v):
     return path
 
 
+def _uniq(items):
+    out, seen = [], set()
+    for x in items:
+        k = json.dumps(x, sort_keys=True, default=repr)
+        if k not in seen:
+            seen.add(k)
+            out.append(x)
+    return out
+
+
 def _git_head(path):
     try:
         import subprocess
@@ -419,7 +429,7 @@ def run_check(prop, tier, seed, only=None, jobs=None):
             "exhaustive": bool(total.exhaustive) and all(total.exhaustive.values()) and getattr(mod, "ALL_EXHAUSTIVE", False),
             "exhaustive_subdomains": {k: v for k, v in sorted(total.exhaustive.items())},
             "known_findings_matched": dict(total.kf_hits),
-            "notes": total.notes[:20],
+            "notes": _uniq(total.notes)[:20],
             "repo": REPO,
             "repo_head": _git_head(REPO),
         },
